@@ -390,9 +390,10 @@ func c09RoundTrip(c psatoken.IClaims, valid bool, decode func([]byte) (psatoken.
 		if valid {
 			return fmt.Sprintf("encoding of a valid set does not decode: %v (bytes %x)", err, enc)
 		}
-		// an invalid set that encodes to undecodable bytes never "decodes to
-		// something else"
-		return ""
+		// the statement allows exactly two outcomes for a decodable-but-invalid
+		// set: the encoder reports an error, or it emits bytes that decode
+		// to the same getter results - bytes that do not decode are neither
+		return fmt.Sprintf("a claims-set that decoded without error re-encodes WITHOUT error to bytes that no longer decode: %v (bytes %x)", err, enc)
 	}
 	g0, g1 := ObserveGetters(c), ObserveGetters(d)
 	if g0 != g1 {
@@ -427,7 +428,7 @@ func fmtI64(p *int64) string {
 
 func TestC09_RoundTrip(t *testing.T) {
 	st := NewStats("C09", "TestC09_RoundTrip", "rapid: (valid) claims-sets of both profiles, and of registered extension profiles of six styles (own codec through the helpers on either base profile, inherited codec without profile claim, inherited codec and OID name, own claim whose Go field name shadows a base field, extension of an extension; own claims absent / zero / non-zero; wire map checked by the independent reader), via setters/literals -> EncodeClaimsToCBOR -> DecodeClaimsFromCBOR: identical getter results and byte-identical re-encoding; (invalid-but-decodable) model-generated invalid tokens encoded by the independent encoder, decoded, re-encoded: encoder error or same getter results. Non-trivial = beyond the canned builder sets (48/64-byte hashes, >=2 components, optional component text, non-ASCII text, negative client id, no-measurements after a decode, invalid-but-decodable); distinct = class vector + route")
-	st.Require = []string{"valid", "invalid-decoded", "P1", "P2", "nomeas-decoded", "extension", "style=ext-p2", "style=ext-p1", "style=inherit-p1", "style=inherit-p2-oid", "style=shadow-p2", "style=nested-p2", "style=lookalike-key-p2", "ext-own-claim-values"}
+	st.Require = []string{"valid", "invalid-decoded", "P1", "P2", "nomeas-decoded", "extension", "style=ext-p2", "style=ext-p1", "style=inherit-p1", "style=inherit-p2-oid", "style=shadow-p2", "style=nested-p2", "style=lookalike-key-p2", "ext-own-claim-values", "ext-null-claim-decoded", "ext-without-components"}
 	defer st.Flush(t)
 	registerMu.Lock()
 	defer registerMu.Unlock()
@@ -437,16 +438,65 @@ func TestC09_RoundTrip(t *testing.T) {
 	if err := psatoken.RegisterProfile(nonceP2Profile{}); err != nil {
 		t.Fatalf("VERIF-INFRA: %v", err)
 	}
+	if err := psatoken.RegisterProfile(noSwP2Profile{}); err != nil {
+		t.Fatalf("VERIF-INFRA: %v", err)
+	}
 	rapid.Check(t, func(t *rapid.T) {
 		p := drawProf(t)
 		styleLabel := ""
-		kind := rapid.SampledFrom([]string{"valid-setters", "valid-literal", "valid-decoded", "any-decoded", "any-decoded", "extension", "dup-profile-key", "ext-own-claim-values"}).Draw(t, "kind")
+		kind := rapid.SampledFrom([]string{"valid-setters", "valid-literal", "valid-decoded", "any-decoded", "any-decoded", "extension", "dup-profile-key", "ext-own-claim-values", "ext-null-claim", "ext-without-components"}).Draw(t, "kind")
 		var m *MClaims
 		var c psatoken.IClaims
 		var err error
 		valid := true
 		decode := psatoken.DecodeClaimsFromCBOR
 		switch kind {
+		case "ext-without-components":
+			// a derived profile that does not allow software components (nil
+			// container, getter says "not in profile"): a VALID claims-set
+			m = GenValid(t, P2, true)
+			p = P2
+			b, berr := m.BuildSetters()
+			if berr != nil {
+				t.Fatalf("VERIF-INFRA: %v", berr)
+			}
+			n := noSwP2Profile{}.GetClaims().(*NoSwP2Claims)
+			prof, canon := n.Profile, n.CanonicalProfile
+			n.P2Claims = *(b.(*psatoken.P2Claims))
+			n.Profile, n.CanonicalProfile, n.SwComponents = prof, canon, nil
+			if verr := n.Validate(); verr != nil {
+				t.Fatalf("VERIF-INFRA: claims of the derived profile without components do not validate: %v", verr)
+			}
+			c = n
+			styleLabel = "no-sw-components"
+		case "ext-null-claim":
+			// a token of a registered extension profile (own codec through the
+			// helpers) in which one claim - mandatory, optional or own - is
+			// CBOR null / undefined: if it decodes, it is not valid, and
+			// re-encoding it fails or round-trips
+			es := extStyleByLabel(rapid.SampledFrom([]string{"ext-p2", "shadow-p2", "nested-p2", "lookalike-key-p2"}).Draw(t, "style"))
+			m = GenValid(t, P2, false)
+			p = P2
+			one := int64(1)
+			w := es.wire(m, &one, &one)
+			keys := keysOf(w)
+			k := keys[rapid.IntRange(0, len(keys)-1).Draw(t, "nullkey")]
+			if k == 265 {
+				k = keys[(rapid.IntRange(0, len(keys)-1).Draw(t, "nullkey2"))]
+			}
+			if k != 265 {
+				w[k] = rapid.SampledFrom([]*icbor.Node{icbor.Null(), icbor.Undef()}).Draw(t, "nullform")
+			}
+			var ps [][2]*icbor.Node
+			for _, kk := range keys {
+				ps = append(ps, icbor.P(icbor.I(kk), w[kk]))
+			}
+			if c, err = psatoken.DecodeClaimsFromCBOR(icbor.Encode(icbor.Map(ps...))); err != nil {
+				st.Case("", "undecodable")
+				return
+			}
+			valid = false
+			styleLabel = es.Label + "/null"
 		case "ext-own-claim-values":
 			// a token of an extension profile whose own optional claim (a
 			// nonce type that checks its length when ENCODED, not when
@@ -587,6 +637,12 @@ func TestC09_RoundTrip(t *testing.T) {
 		cls := []string{p.String()}
 		if kind == "extension" {
 			cls = append(cls, "extension", "style="+styleLabel)
+		}
+		if kind == "ext-null-claim" {
+			cls = append(cls, "extension", "ext-null-claim-decoded")
+		}
+		if kind == "ext-without-components" {
+			cls = append(cls, "extension", "ext-without-components")
 		}
 		if kind == "dup-profile-key" {
 			cls = append(cls, "dup-profile-key-decoded")
